@@ -64,6 +64,35 @@ use trustfall_core::ir::{
 };
 
 const K_ENUM: &str = "K-enum-json";
+/// the value contains a finite float whose shortest decimal text (as serde_json prints it) is not
+/// read back bit-exactly by serde_json's default float parser (the crate is built without the
+/// `float_roundtrip` feature): JSON TEXT only; serde_json::Value and ron are exact
+const K_FLOAT: &str = "K-json-float-text";
+
+fn float_text_lossy(f: f64) -> bool {
+    if !f.is_finite() {
+        return false;
+    }
+    match serde_json::to_string(&f).ok().and_then(|s| serde_json::from_str::<f64>(&s).ok()) {
+        Some(g) => g.to_bits() != f.to_bits(),
+        None => true,
+    }
+}
+fn fv_has_lossy_float(v: &FieldValue) -> bool {
+    match v {
+        FieldValue::Float64(f) => float_text_lossy(*f),
+        FieldValue::List(xs) => xs.iter().any(fv_has_lossy_float),
+        _ => false,
+    }
+}
+fn json_has_lossy_float(v: &Value) -> bool {
+    match v {
+        Value::Number(n) => n.is_f64() && float_text_lossy(n.as_f64().unwrap()),
+        Value::Array(l) => l.iter().any(json_has_lossy_float),
+        Value::Object(m) => m.values().any(json_has_lossy_float),
+        _ => false,
+    }
+}
 
 // ------------------------------------------------------------------ CLI
 
@@ -220,6 +249,9 @@ fn value_set(rng: &mut Rng, n: usize) -> Vec<FieldValue> {
         Float64(2.2250738585072011e-308),
         Float64(1.7976931348623157e308),
         Float64(123456789012345680.0),
+        // F13b witnesses: JSON text gives back a neighbouring float
+        Float64(f64::from_bits(11666559014341896425)),
+        Float64(f64::from_bits(7555227041076449582)),
         s("foo"),
         s("1"),
         s("null"),
@@ -279,6 +311,10 @@ fn run_values(seed: u64, n: usize, out: &mut Out, oracle_only: bool) {
     for v in &vals {
         let inp = json!({"value": show_fv(v)});
         let enumy = has_enum(v);
+        let lossy = fv_has_lossy_float(v);
+        if lossy {
+            out.count("value:contains a float that JSON text does not round-trip");
+        }
         let tv = to_tv(v);
         let back = FieldValue::from(tv.clone());
         let jv = caught(|| serde_json::to_value(&tv).ok()).flatten();
@@ -331,6 +367,8 @@ fn run_values(seed: u64, n: usize, out: &mut Out, oracle_only: bool) {
                 let detail = json!({"back": r.as_ref().map(show_fv), "json": serde_json::to_string(&tv).ok()});
                 if enumy {
                     out.oracle_fail_class(K_ENUM, &msg, inp.clone(), detail);
+                } else if lossy && what == "JSON text" {
+                    out.oracle_fail_class(K_FLOAT, &msg, inp.clone(), detail);
                 } else {
                     out.oracle_fail(&msg, inp.clone(), detail);
                 }
@@ -338,11 +376,12 @@ fn run_values(seed: u64, n: usize, out: &mut Out, oracle_only: bool) {
         }
         // text and Value paths agree exactly (bit-exact floats)
         if rt.as_ref().map(show_fv) != text_rt.as_ref().map(show_fv) {
-            out.oracle_fail(
-                "untagged JSON: text path and Value path disagree",
-                inp.clone(),
-                json!({"value_path": rt.as_ref().map(show_fv), "text_path": text_rt.as_ref().map(show_fv), "json": serde_json::to_string(&tv).ok()}),
-            );
+            let detail = json!({"value_path": rt.as_ref().map(show_fv), "text_path": text_rt.as_ref().map(show_fv), "json": serde_json::to_string(&tv).ok()});
+            if lossy {
+                out.oracle_fail_class(K_FLOAT, "untagged JSON: text path and Value path disagree", inp.clone(), detail);
+            } else {
+                out.oracle_fail("untagged JSON: text path and Value path disagree", inp.clone(), detail);
+            }
         }
         // a second trip is the identity (structurally)
         if let Some(r1) = &text_rt {
@@ -352,7 +391,11 @@ fn run_values(seed: u64, n: usize, out: &mut Out, oracle_only: bool) {
             .flatten()
             .map(FieldValue::from);
             if r2.as_ref().map(show_fv) != Some(show_fv(r1)) {
-                out.oracle_fail("untagged JSON: second trip is not the identity", inp.clone(), json!(r2.as_ref().map(show_fv)));
+                if lossy || fv_has_lossy_float(r1) {
+                    out.oracle_fail_class(K_FLOAT, "untagged JSON: second trip is not the identity", inp.clone(), json!(r2.as_ref().map(show_fv)));
+                } else {
+                    out.oracle_fail("untagged JSON: second trip is not the identity", inp.clone(), json!(r2.as_ref().map(show_fv)));
+                }
             }
         }
         // tagged FieldValue (derived externally-tagged form): exact, variant-preserving
@@ -375,11 +418,17 @@ fn run_values(seed: u64, n: usize, out: &mut Out, oracle_only: bool) {
 /// decides equality; also the re-serialised text must be identical.
 fn check_roundtrip<T: Serialize + DeserializeOwned>(what: &str, v: &T, inp: &Value, out: &mut Out, same: impl Fn(&T, &T) -> bool) {
     // serde_json text
+    let lossy = caught(|| serde_json::to_value(v).ok()).flatten().map(|j| json_has_lossy_float(&j)).unwrap_or(false);
     match caught(|| serde_json::to_string(v)) {
         Some(Ok(s)) => match caught(|| serde_json::from_str::<T>(&s)) {
             Some(Ok(b)) => {
                 if !same(v, &b) {
-                    out.oracle_fail(&format!("serde_json round trip of {what} returned a different value"), inp.clone(), json!({"text": s}));
+                    let msg = format!("serde_json round trip of {what} returned a different value");
+                    if lossy {
+                        out.oracle_fail_class(K_FLOAT, &msg, inp.clone(), json!({"text": s}));
+                    } else {
+                        out.oracle_fail(&msg, inp.clone(), json!({"text": s}));
+                    }
                 } else if serde_json::to_string(&b).ok().as_deref() != Some(s.as_str()) {
                     out.oracle_fail(&format!("serde_json re-serialisation of {what} differs"), inp.clone(), json!({"text": s}));
                 }
@@ -537,11 +586,13 @@ fn run_json_docs(seed: u64, n: usize, out: &mut Out, oracle_only: bool) {
         let text = j.to_string();
         let rt = caught(|| serde_json::from_str::<TransparentValue>(&text).ok()).flatten().map(FieldValue::from);
         if rt.as_ref().map(show_fv) != r.as_ref().map(show_fv) {
-            out.oracle_fail(
-                "reading the printed JSON text differs from reading the serde_json::Value",
-                json!({"json": text}),
-                json!({"text_path": rt.as_ref().map(show_fv), "value_path": r.as_ref().map(show_fv)}),
-            );
+            let detail = json!({"text_path": rt.as_ref().map(show_fv), "value_path": r.as_ref().map(show_fv)});
+            let msg = "reading the printed JSON text differs from reading the serde_json::Value";
+            if json_has_lossy_float(j) {
+                out.oracle_fail_class(K_FLOAT, msg, json!({"json": text}), detail);
+            } else {
+                out.oracle_fail(msg, json!({"json": text}), detail);
+            }
         }
     }
 }
@@ -862,12 +913,12 @@ fn run_attrs(out: &mut Out, oracle_only: bool) {
     let ctx_samples: [(&str, &str, bool); 6] = [
         ("values", "(active_vertex:Some(1),vertices:{},values:[Int64(1)])", true),
         ("suspended_vertices", "(active_vertex:Some(1),vertices:{},suspended_vertices:[Some(2)])", true),
-        ("folded_contexts", "(active_vertex:Some(1),vertices:{},folded_contexts:{Eid(1):None})", true),
-        ("folded_values", "(active_vertex:Some(1),vertices:{},folded_values:{(Eid(1),\"x\"):None})", false),
+        ("folded_contexts", "(active_vertex:Some(1),vertices:{},folded_contexts:{(1):None})", true),
+        ("folded_values", "(active_vertex:Some(1),vertices:{},folded_values:{((1),\"x\"):None})", false),
         ("piggyback", "(active_vertex:Some(1),vertices:{},piggyback:Some([(active_vertex:Some(2),vertices:{})]))", true),
         (
             "imported_tags",
-            "(active_vertex:Some(1),vertices:{},imported_tags:{ContextField((vertex_id:Vid(1),field_name:\"f\",field_type:\"Int\")):NonexistentOptional})",
+            "(active_vertex:Some(1),vertices:{},imported_tags:{ContextField((vertex_id:(1),field_name:\"f\",field_type:\"Int\")):NonexistentOptional})",
             false,
         ),
     ];
